@@ -13,12 +13,115 @@ from . import hints as H
 ENTRY_POINTS = ('is_bearable', 'die_if_unbearable', 'typehint_is_bearable', 'typehint_die', 'param', 'return')
 
 
+class NeverK:
+    """Annotates the variadic keyword parameter of the signature shapes below: no generated object is an instance, so
+    that a wrapper which wrongly applies ``**kw: NeverK`` to a declared parameter rejects it."""
+
+
+# Signature shapes / calling conventions of the decorated callable whose parameter ``a`` carries the hint. Every shape
+# hands the object to the callable as the parameter ``a`` and returns it; what varies is what the wrapper has to work
+# out to find it (positional or keyword, keyword-only, after another parameter, next to ``**kw``, bound method, ...).
+SIGS = ('pos', 'kw', 'pos_kwargs', 'kw_kwargs', 'extra_kw', 'kwonly', 'kwonly_kwargs', 'second', 'second_kw', 'posonly',
+        'method', 'varpos', 'varkw', 'unannotated_first')
+SIG_WEIGHTS = (40, 6, 4, 8, 4, 5, 6, 4, 5, 3, 4, 4, 4, 3)
+
+
+def gen_sig(rng):
+    return rng.choices(SIGS, SIG_WEIGHTS)[0]
+
+
+def _mk_param(sig, hint, ran, deco):
+    """The decorated callable of shape ``sig`` as a one-argument callable ``x -> a``."""
+    def note():
+        ran['param'] += 1
+    if sig == 'kw':
+        def f(a):
+            note()
+            return a
+        f.__annotations__ = {'a': hint}
+        g = deco(f)
+        return lambda x: g(a=x)
+    if sig in ('pos_kwargs', 'kw_kwargs', 'extra_kw'):
+        def f(a, **kw):
+            note()
+            return a
+        f.__annotations__ = {'a': hint, 'kw': NeverK}
+        g = deco(f)
+        if sig == 'pos_kwargs':
+            return lambda x: g(x)
+        if sig == 'kw_kwargs':
+            return lambda x: g(a=x)
+        return lambda x: g(x, z=NeverK(), y=NeverK())
+    if sig == 'kwonly':
+        def f(*, a):
+            note()
+            return a
+        f.__annotations__ = {'a': hint}
+        g = deco(f)
+        return lambda x: g(a=x)
+    if sig == 'kwonly_kwargs':
+        def f(n=0, *, a, **kw):
+            note()
+            return a
+        f.__annotations__ = {'n': int, 'a': hint, 'kw': NeverK}
+        g = deco(f)
+        return lambda x: g(1, a=x)
+    if sig in ('second', 'second_kw'):
+        def f(n, a=None, *rest, k=0):
+            note()
+            return a
+        f.__annotations__ = {'n': int, 'a': hint, 'rest': NeverK, 'k': int}
+        g = deco(f)
+        if sig == 'second':
+            return lambda x: g(0, x)
+        return lambda x: g(0, a=x, k=2)
+    if sig == 'posonly':
+        ns = {}
+        exec('def f(a, /, b=0):\n    note()\n    return a\n', {'note': note}, ns)
+        f = ns['f']
+        f.__annotations__ = {'a': hint, 'b': int}
+        g = deco(f)
+        return lambda x: g(x)
+    if sig == 'method':
+        class C:
+            def m(self, a):
+                note()
+                return a
+        C.m.__annotations__ = {'a': hint}
+        C.m = deco(C.m)
+        c = C()
+        return lambda x: c.m(x)
+    if sig == 'varpos':
+        def f(*a):
+            note()
+            return a[-1]
+        f.__annotations__ = {'a': hint}
+        g = deco(f)
+        return lambda x: g(x)
+    if sig == 'varkw':
+        def f(**a):
+            note()
+            return a['k']
+        f.__annotations__ = {'a': hint}
+        g = deco(f)
+        return lambda x: g(k=x)
+    if sig == 'unannotated_first':
+        def f(u, a, **kw):
+            note()
+            return a
+        f.__annotations__ = {'a': hint, 'kw': NeverK}
+        g = deco(f)
+        return lambda x: g(u=x, a=x)
+    raise ValueError(sig)
+
+
 class Prepared:
     """Checkers for one (hint, conf): built once, evaluated for many objects / draws."""
 
-    def __init__(self, hint, conf_kw, prebuilt_conf=None):
+    def __init__(self, hint, conf_kw, prebuilt_conf=None, sig='pos'):
         from beartype import beartype, door
         self.hint = hint
+        self.sig = sig if sig in SIGS else 'pos'
         self.conf_kw = conf_kw
         self.conf = prebuilt_conf if prebuilt_conf is not None else ops.build_conf(conf_kw)
         self.door = door
@@ -33,6 +136,8 @@ class Prepared:
 
         def mk(pos):
             ran = self.ran
+            if pos == 'param' and self.sig != 'pos':
+                return _mk_param(self.sig, hint, ran, beartype(conf=self.conf))
 
             def f(a):
                 ran[pos] += 1
